@@ -20,6 +20,7 @@ func c08Store(populated bool) storage.Store {
 			mustTriple(mustNode("/u", "a"), mustImmutable("p"), triple.NewNodeObject(mustNode("/u", "b"))),
 			mustTriple(mustNode("/u", "b"), mustImmutable("p"), textObj("x")),
 			mustTriple(mustNode("/u", "a"), mustImmutable("q"), triple.NewLiteralObject(intCell(7).L)),
+			mustTriple(mustNode("/u", "b"), mustImmutable("q"), triple.NewLiteralObject(floatCell(1.5).L)),
 		}
 	}
 	st, _ := newStoreWith("?g", ts)
@@ -125,6 +126,11 @@ var c08Corpus = []string{
 	`select ?s, count(?o) as ?x from ?g where { ?s "zz"@[] ?o } group by ?s ;`,
 	`select ?s from ?g where { ?s "p"@[] ?o } limit "0"^^type:int64 ;`,
 	`select ?s from ?g where { ?s "p"@[] ?o } limit "9223372036854775807"^^type:int64 ;`,
+	`select ?s, ?p, ?o from ?g where { ?s ?p ?o } limit "9223372036854775807"^^type:int64 ;`,
+	`select ?s, ?p, ?o from ?g where { ?s ?p ?o } limit "4611686018427387904"^^type:int64 ;`,
+	`select ?s, sum(?o) as ?x from ?g where { ?s ?p ?o } group by ?s ;`,
+	`select ?p, sum(?o) as ?x from ?g where { ?s ?p ?o } group by ?p order by ?x having ?x > "1"^^type:int64 limit "2"^^type:int64 ;`,
+	`select ?s, count(distinct ?o) as ?x, count(?p) as ?y from ?g where { ?s ?p ?o } group by ?s ;`,
 	`select ?s from ?nope where { ?s "p"@[] ?o } ;`,
 	`select ?s from ?g where { ?s "p"@[] ?o } order by ?s, ?s desc ;`,
 	`select ?s from ?g where { ?s "p"@[] ?o . optional { ?o "zz"@[] ?z } } ;`,
